@@ -102,7 +102,7 @@ def sym(name):
 
 
 def is_num(v):
-    return isinstance(v, (Fraction, int, bool, poly.RF))
+    return isinstance(v, (Fraction, int, bool, poly.RF, float))
 
 
 def to_rf(v):
@@ -119,7 +119,9 @@ _CONS = poly.Constraints()
 
 
 def simp(v):
-    """normal form of a number: Fraction when constant"""
+    """normal form of a number: Fraction when constant; python floats carry the IEEE specials inf / nan of a scenario"""
+    if isinstance(v, float):
+        return v
     if isinstance(v, poly.RF):
         n = v.normal(_CONS)
         if poly.p_is_const(n.n) and poly.p_is_const(n.d) and n.d:
@@ -204,7 +206,7 @@ def is_ref(x):
     return isinstance(x, (Cell, ItemRef, FnRef))
 
 
-UNSET = type("Unset", (), {"__repr__": lambda self: "<unset>"})()
+UNSET = type("Unset", (), {"__repr__": lambda self: "<unset>", "__deepcopy__": lambda self, memo: self, "__copy__": lambda self: self})()
 
 
 class Vec:
@@ -517,6 +519,9 @@ class Machine:
             b = Fraction(int(b))
         if isinstance(a, Fraction) and isinstance(b, Fraction):
             return {"<": a < b, "<=": a <= b, ">": a > b, ">=": a >= b, "==": a == b, "!=": a != b}[op]
+        if (isinstance(a, float) or isinstance(b, float)) and isinstance(a, (Fraction, float)) and isinstance(b, (Fraction, float)):
+            x, y = float(a), float(b)          # IEEE semantics: every ordered comparison with NaN is false
+            return {"<": x < y, "<=": x <= y, ">": x > y, ">=": x >= y, "==": x == y, "!=": x != y}[op]
         if is_num(a) and is_num(b):
             d = simp(to_rf(a) - to_rf(b))
             if isinstance(d, Fraction):
@@ -675,7 +680,10 @@ class Machine:
             if isinstance(v, Obj):
                 return v          # *this
             raise Unab("dereference of %s" % show_val(v))
-        if op == "&":
+        if op in ("&", "->"):
+            v2 = self.rv(v)
+            if op == "->" and hasattr(v2, "deref"):
+                return v2.deref()
             return v
         if op == "~":
             raise Unab("bitwise not")
@@ -703,6 +711,24 @@ class Machine:
                 return h(self, a, b)
         if not (is_num(a) and is_num(b)):
             raise Unab("arithmetic %s on %s and %s" % (op, show_val(a), show_val(b)))
+        if isinstance(a, float) or isinstance(b, float) or (op == "/" and getattr(self, "ieee_division", False) and isinstance(simp(b), Fraction) and simp(b) == 0
+                                                           and isinstance(simp(a), Fraction)):
+            a_, b_ = simp(a), simp(b)
+            if isinstance(a_, poly.RF) or isinstance(b_, poly.RF):
+                raise Unab("IEEE special values combined with symbolic numbers")
+            x, y = float(a_), float(b_)
+            try:
+                if op == "/" and y == 0:
+                    return float("nan") if (x == 0 or x != x) else (float("inf") if x > 0 else float("-inf"))
+                r = {"+": lambda: x + y, "-": lambda: x - y, "*": lambda: x * y, "/": lambda: x / y}[op]()
+            except (KeyError, OverflowError, ZeroDivisionError):
+                raise Unab("floating special-value arithmetic %s" % op)
+            if r != r or r in (float("inf"), float("-inf")):
+                return r
+            # finite results stay exact whenever both operands were exact
+            if isinstance(a_, Fraction) and isinstance(b_, Fraction):
+                return {"+": lambda: a_ + b_, "-": lambda: a_ - b_, "*": lambda: a_ * b_, "/": lambda: a_ / b_}[op]()
+            return Fraction(r) if r == r and abs(r) != float("inf") else r
         if isinstance(a, poly.RF) or isinstance(b, poly.RF):
             x, y = to_rf(a), to_rf(b)
             if op == "/" and not simp(y):
@@ -1108,7 +1134,8 @@ class Machine:
         ks = [k for k in A.kids(v) if not (k.get("kind") or "").endswith(("Attr", "Comment"))]
         isref = ty.rstrip().endswith("&") or ty.rstrip().endswith("&&")
         if v.get("kind") == "DecompositionDecl":
-            src = self.ev(TE(ks[-1]), env) if ks else None
+            inits = [k for k in ks if k.get("kind") != "BindingDecl"]
+            src = self.ev(TE(inits[-1]), env) if inits else None
             names = [b.get("name") for b in ks if b.get("kind") == "BindingDecl"]
             srcv = self.rv(src)
             items = srcv.items if isinstance(srcv, (Tup, Vec)) else None
@@ -1137,6 +1164,12 @@ class Machine:
             r = self.construct(ty, cargs, env) if self.constructible(ty) else self.ev(init, env)
         else:
             r = self.ev(init, env)
+            rr = self.rv(r)
+            if isinstance(rr, Vec) and rr.name == "initializer list" and A.strip(ks[-1]).get("kind") == "InitListExpr" and self.type_factory is not None:
+                # copy-list-initialisation T x = {a, b}: an object of the declared type when the client models that type
+                made = self.type_factory(self, re.sub(r"\s+", "", ty or ""), [TE(c) for c in A.kids(A.strip(ks[-1]))], env)
+                if made is not NotImplemented:
+                    r = made
         if isref and (is_ref(r) or isinstance(r, OptValue)):
             env.bind(nm, r)
             return
